@@ -116,6 +116,7 @@ public:
     {
         // stack should be empty now, so shrink_to_fit() clears all memory
         stack.stack_.shrink_to_fit();
+        FOONATHAN_MEMORY_VERIF_POINT(14, &stack);
         stack.in_use_ = false; // mark as free
     }
 
